@@ -23,6 +23,7 @@ import JanetModel.Lib.Boot3
 import JanetModel.Lib.Boot5
 import JanetModel.Lib.Boot6
 import JanetModel.Lib.Boot8
+import JanetModel.Lib.MiscC2
 open Driver JanetModel.Lib
 
 inductive V where
@@ -489,21 +490,24 @@ def call (f : String) (args : List V) : Out :=
   | "buffer/new-filled", n :: rest =>
     if rest.length > 1 then .err args else
     (match intOf n, (match rest with | [x] => intOf x | _ => some 0) with
-     | some c, some byte => .ok (.str 1 (newFilled c byte)) args
+     | some c, some byte => withMirror (BufPush.newFilledC c byte) (some (newFilled c byte)) args (.ok (.str 1 (newFilled c byte)) args)
      | _, _ => .err args)
   | "buffer/push-word", (.str 1 b) :: xs =>
     let good := xs.takeWhile (fun v => match v with | .int k => decide (0 ≤ k ∧ k < 4294967296) | _ => false)
     let b' := b ++ (good.filterMap (fun v => match v with | .int k => some (leBytes 4 k.toNat) | _ => none)).flatten
-    if good.length == xs.length then .ok (.str 1 b') (setArg0 args (.str 1 b')) else .err (setArg0 args (.str 1 b'))
+    let k := if good.length == xs.length then Out.ok (.str 1 b') (setArg0 args (.str 1 b')) else .err (setArg0 args (.str 1 b'))
+    (match ints xs with
+     | some ws => withPush (BufPush.pushWord { data := b.toArray, count := b.length } ws) (good.length == xs.length) b' args k
+     | none => k)
   | "buffer/push-uint16", [.str 1 b, .str 3 order, .int x] | "buffer/push-uint32", [.str 1 b, .str 3 order, .int x] =>
     let nb := if f == "buffer/push-uint16" then 2 else 4
     let be? : Option Bool := if order == [108, 101] then some false else if order == [98, 101] then some true
                              else if order == [110, 97, 116, 105, 118, 101] then some false else none
-    (match be? with
-     | none => .err args
-     | some be => (match pushUint b nb be x with
-        | some r => .ok (.str 1 r) (setArg0 args (.str 1 r))
-        | none => .err args))
+    let spec : Option (List Nat) := be?.bind (fun be => pushUint b nb be x)
+    withMirror (do let b' ← BufPush.pushUintC { data := b.toArray, count := b.length } nb order x; pure (BufPush.contents b')) spec args
+    (match spec with
+     | some r => .ok (.str 1 r) (setArg0 args (.str 1 r))
+     | none => .err args)
   | "buffer/bit", [.str 1 b, .int i] =>
     withMirror (BufC.bitGet b i) (bitGet b i) args (match bitGet b i with | some r => .ok (ofBool r) args | none => .err args)
   | "buffer/bit-set", [.str 1 b, .int i] =>
@@ -554,16 +558,22 @@ def call (f : String) (args : List V) : Out :=
     let x := rest.getD 0 .nil
     let r := arrayFill a x
     withMirror (ArrC.fill a x) (some r) args (.ok (.seq 1 r) (setArg0 args (.seq 1 r)))
-  | "array/push", (.seq 1 a) :: xs => let r := a ++ xs; .ok (.seq 1 r) (setArg0 args (.seq 1 r))
+  | "array/push", (.seq 1 a) :: xs =>
+    let r := a ++ xs
+    withMirror (ArrC.pushC a xs) (some r) args (.ok (.seq 1 r) (setArg0 args (.seq 1 r)))
   | "array/pop", [.seq 1 a] =>
+    withMirror (ArrC.pop a) (some (a.getLast?, a.dropLast)) args
     (match a.getLast? with
      | some x => .ok x (setArg0 args (.seq 1 a.dropLast))
      | none => .ok .nil args)
-  | "array/peek", [.seq 1 a] => .ok (a.getLast?.getD .nil) args
+  | "array/peek", [.seq 1 a] => withMirror (ArrC.peek a) (some a.getLast?) args (.ok (a.getLast?.getD .nil) args)
   | "array/new-filled", n :: rest =>
     if rest.length > 1 then .err args else
     (match intOf n with
-     | some c => if c < 0 then .err args else .ok (.seq 1 (List.replicate c.toNat (rest.getD 0 .nil))) args
+     | some c =>
+       if c > 100000 then .skip else
+       withMirror (ArrC.newFilled c (rest.getD 0 .nil)) (if c < 0 then none else some (List.replicate c.toNat (rest.getD 0 .nil))) args
+       (if c < 0 then .err args else .ok (.seq 1 (List.replicate c.toNat (rest.getD 0 .nil))) args)
      | none => .err args)
   -- ---------------------------------------------------------------- boot.janet sequence functions
   | "take", [.int n, x] =>
@@ -757,7 +767,8 @@ def call (f : String) (args : List V) : Out :=
        if 0 ≤ x ∧ x ≤ 9007199254740992 then
          let bs := leBytes 8 x.toNat
          let r := b ++ (if be then bs.reverse else bs)
-         .ok (.str 1 r) (setArg0 args (.str 1 r))
+         withMirror (do let b' ← BufPush.pushUintC { data := b.toArray, count := b.length } 8 order x; pure (BufPush.contents b'))
+           (some r) args (.ok (.str 1 r) (setArg0 args (.str 1 r)))
        else .err args)
   | "buffer/push-float64", [.str 1 b, .str 3 order, .int x] =>
     let be? : Option Bool := if order == [108, 101] then some false else if order == [98, 101] then some true
